@@ -14,6 +14,8 @@ attributes are set).  The optimiser, the kernels etc. are not modelled: a cached
 value "what its _compute_ method yields from canonical inputs".
 """
 import ast
+import json
+import os
 import copy
 import itertools
 import logging
@@ -371,12 +373,23 @@ def run(ctx):
         ctx.broken.append(Broken("translation", "C18 targets", str(u)))
         gen = None
     if info is None:
+        # the tables could not be regenerated (the code changed shape): the run-time search must still cover the class that
+        # changed, so it falls back to the tables of the last tree on which the translation succeeded (committed snapshot,
+        # used for choosing operations and the attributes to compare only - never for the model, which is skipped)
         info = {}
+        snap = {}
+        try:
+            with open(os.path.join(os.path.dirname(os.path.abspath(__file__)), "c18_tables_snapshot.json")) as f:
+                snap = json.load(f)
+        except Exception:  # noqa
+            pass
         for cls, rel in ESTS.items():
             try:
                 info[cls] = build_table(cls, rel)
             except Exception:  # noqa
-                pass
+                if cls in snap:
+                    info[cls] = snap[cls]
+                    ctx.cov.setdefault("tables_from_snapshot", []).append(cls)
 
     n = 12
     X = nrng.normal(size=(n, 2))
